@@ -169,31 +169,212 @@ theorem C16_restore_from_any_failure {α : Type} (W : World) (c : Ccx) (m : M α
         ∧ d'.t.pages = (m d).2.t.pages ∧ d'.t.entered = (m d).2.t.entered ∧ d'.t.wild = (m d).2.t.wild) := by
   unfold withCcx
   rcases hm : m d with ⟨r, d1⟩
+  have key : ∀ (r : Res α), r ≠ .panic →
+      (∃ d', (match setregsOp W c.regs d1 with
+              | (.ok _, d2) => (match pokeOp W c.pc c.text d2 with
+                  | (.ok _, d3) => (r, d3)
+                  | (_, d3) => (.panic, d3))
+              | (_, d2) => (.panic, d2)) = (.panic, d')) ∨
+      (∃ d', (match setregsOp W c.regs d1 with
+              | (.ok _, d2) => (match pokeOp W c.pc c.text d2 with
+                  | (.ok _, d3) => (r, d3)
+                  | (_, d3) => (.panic, d3))
+              | (_, d2) => (.panic, d2)) = (r, d')
+          ∧ d'.t.regs = c.regs ∧ peek d'.t.mem c.pc = c.text
+          ∧ (∀ a, ¬ (c.pc ≤ a ∧ a < c.pc + 8) → d'.t.mem a = d1.t.mem a)
+          ∧ d'.t.pages = d1.t.pages ∧ d'.t.entered = d1.t.entered ∧ d'.t.wild = d1.t.wild) := by
+    intro r _
+    rcases setregsOp_cases W c.regs d1 with ⟨d2, e2⟩ | ⟨d2, e2, t2⟩
+    · exact Or.inl ⟨d2, by rw [e2]⟩
+    · rcases pokeOp_cases W c.pc c.text d2 with ⟨d3, e3⟩ | ⟨d3, e3, t3⟩
+      · exact Or.inl ⟨d3, by rw [e2]; simp only []; rw [e3]⟩
+      · refine Or.inr ⟨d3, by rw [e2]; simp only []; rw [e3], ?_⟩
+        rw [t3, t2]
+        refine ⟨rfl, peek_poke_same _ _ _ ht, ?_, rfl, rfl, rfl⟩
+        intro a ha; exact poke_other _ _ _ _ ha
   cases r with
   | panic => exact Or.inl ⟨d1, rfl⟩
   | ok a =>
-    simp only [setregsOp, pokeOp]
-    by_cases f1 : W.fails Op.setregs (d1.cnt Op.setregs) = true
-    · simp [f1]
-    · by_cases f2 : W.fails Op.poke ((emit { bump d1 .setregs with t := { d1.t with regs := c.regs } } (.setregs c.regs true)).cnt Op.poke) = true
-      · simp [f1, f2]
-      · refine Or.inr ⟨_, _, by simp [f1, f2]; exact ⟨rfl, rfl⟩, ?_⟩
-        simp [emit, bump, peek_poke_same _ _ _ ht]
-        intro a ha; exact poke_other' _ _ _ _ ha
-  | err e =>
-    simp only [setregsOp, pokeOp]
-    by_cases f1 : W.fails Op.setregs (d1.cnt Op.setregs) = true
-    · simp [f1]
-    · by_cases f2 : W.fails Op.poke ((emit { bump d1 .setregs with t := { d1.t with regs := c.regs } } (.setregs c.regs true)).cnt Op.poke) = true
-      · simp [f1, f2]
-      · refine Or.inr ⟨_, _, by simp [f1, f2]; exact ⟨rfl, rfl⟩, ?_⟩
-        simp [emit, bump, peek_poke_same _ _ _ ht]
-        intro a ha; exact poke_other' _ _ _ _ ha
+    rcases key (.ok a) (by simp) with ⟨d', e⟩ | ⟨d', e, rest⟩
+    · exact Or.inl ⟨d', e⟩
+    · exact Or.inr ⟨_, d', e, rest⟩
+  | err e0 =>
+    rcases key (.err e0) (by simp) with ⟨d', e⟩ | ⟨d', e, rest⟩
+    · exact Or.inl ⟨d', e⟩
+    · exact Or.inr ⟨_, d', e, rest⟩
 
 /-- non-vacuity: a body that fails at once, no injected fault: not the panic branch -/
 example : ∃ r d', withCcx (noFaults 0 id) ⟨100, fun _ => 7, 5⟩ (fail .mmap : M Unit) { t := { regs := fun _ => 0, mem := fun _ => 0 } } = (r, d')
     ∧ d'.t.regs = (fun _ => 7) := by
   refine ⟨_, _, rfl, ?_⟩
   rfl
+
+/-! ### the complete successful call -/
+
+/-- what is assumed of the called function: it neither injects calls itself, nor unmaps the trampoline page, nor runs wild
+(its effect on registers and on memory is ARBITRARY) -/
+structure CalleeFrame (W : World) : Prop where
+  pages : ∀ t, (W.callee t).pages = t.pages
+  entered : ∀ t, (W.callee t).entered = t.entered
+  wild : ∀ t, (W.callee t).wild = t.wild
+
+/-- what is assumed of the stop and of the kernel: no ptrace request fails, memory is made of bytes, the thread is stopped
+at `pc`, the kernel grants the mmap and the fresh page is zero-filled address space that was not in use -/
+structure GoodStop (W : World) (d : Dbg) (pc : Addr) : Prop where
+  noFail : NoFail W
+  bytes : Bytes d.t.mem
+  atPc : d.t.regs Rip = pc
+  page : W.mmapRes < W64 - 4095
+  freshZero : ∀ a, inPage W.mmapRes a = true → d.t.mem a = 0
+
+/-- `call f a1..an` enters f EXACTLY ONCE (the entry log grows by one entry, whose target is f), with argument i in the
+i-th System V register, and the CPU never executes anything but the trampoline and f -/
+theorem C16_called_once_with_args (W : World) (d : Dbg) (pc fnAddr : Nat) (args : List Nat)
+    (hs : GoodStop W d pc) (hc : CalleeFrame W) (hlen : args.length ≤ 6) :
+    (callFnRaw W pc fnAddr args d).1 = .ok () ∧
+    ∃ regsAtEntry, (callFnRaw W pc fnAddr args d).2.t.entered = d.t.entered ++ [(fnAddr, regsAtEntry)]
+      ∧ regsAtEntry.take args.length = args
+      ∧ (callFnRaw W pc fnAddr args d).2.t.wild = d.t.wild := by
+  obtain ⟨h1, _, h3⟩ := callFnRaw_ok hs.noFail pc fnAddr args d hs.bytes hs.atPc hs.page hc.pages
+  refine ⟨h1, argRegs.map (callRegs W fnAddr args d.t), ?_, ?_, ?_⟩
+  · rw [h3]; exact finalT_entered W pc fnAddr args d.t hc.entered
+  · have : argRegs.map (callRegs W fnAddr args d.t) = argRegs.map (prepare d.t.regs args) := by
+      apply List.map_congr_left
+      intro j hj
+      simp [argRegs] at hj
+      rcases hj with rfl | rfl | rfl | rfl | rfl | rfl <;> simp [callRegs, RegFile.set, Rax, Rip]
+    rw [this]; exact C16_args_in_sysv_registers d.t.regs args hlen
+  · rw [h3]; exact finalT_wild W pc fnAddr args d.t hc.wild
+
+/-- after a successful call: every register is what it was, the trampoline page is unmapped again (the set of injected
+pages is what it was and the page reads as fresh), the breakpoint table is untouched, the code word at pc is what it was,
+and every other byte is exactly what the callee left (`entryT` = the thread at the callee's first instruction). -/
+theorem C16_state_restored (W : World) (d : Dbg) (pc fnAddr : Nat) (args : List Nat)
+    (hs : GoodStop W d pc) (hc : CalleeFrame W) :
+    (callFnRaw W pc fnAddr args d).1 = .ok ()
+    ∧ (callFnRaw W pc fnAddr args d).2.t.regs = d.t.regs
+    ∧ (callFnRaw W pc fnAddr args d).2.t.pages = d.t.pages
+    ∧ (callFnRaw W pc fnAddr args d).2.bps = d.bps
+    ∧ (callFnRaw W pc fnAddr args d).2.t.wild = d.t.wild
+    ∧ (∀ a, pc ≤ a ∧ a < pc + 8 → (callFnRaw W pc fnAddr args d).2.t.mem a = d.t.mem a)
+    ∧ (∀ a, inPage W.mmapRes a = true → (callFnRaw W pc fnAddr args d).2.t.mem a = d.t.mem a)
+    ∧ (∀ a, ¬ (pc ≤ a ∧ a < pc + 8) → inPage W.mmapRes a = false →
+         (callFnRaw W pc fnAddr args d).2.t.mem a = (W.callee (entryT W pc fnAddr args d.t)).mem a) := by
+  obtain ⟨h1, h2, h3⟩ := callFnRaw_ok hs.noFail pc fnAddr args d hs.bytes hs.atPc hs.page hc.pages
+  refine ⟨h1, ?_, ?_, h2, ?_, ?_, ?_, ?_⟩
+  · rw [h3]; rfl
+  · rw [h3]; exact finalT_pages W pc fnAddr args d.t hc.pages
+  · rw [h3]; exact finalT_wild W pc fnAddr args d.t hc.wild
+  · intro a ha; rw [h3, finalT_mem W pc fnAddr args d.t hs.bytes a]; simp [ha]
+  · intro a ha; rw [h3, finalT_mem W pc fnAddr args d.t hs.bytes a]
+    by_cases hw : pc ≤ a ∧ a < pc + 8
+    · simp [hw]
+    · simp [hw, ha, hs.freshZero a ha]
+  · intro a hw hp; rw [h3, finalT_mem W pc fnAddr args d.t hs.bytes a]; simp [hw, hp]
+
+/-- memory at the callee's first instruction: the image, except the patched word at pc, the trampoline page and the
+return address pushed right below the stack pointer -/
+theorem C16_memory_at_entry (W : World) (pc fnAddr : Nat) (args : List Nat) (t0 : Tracee) (a : Nat)
+    (hw : ¬ (pc ≤ a ∧ a < pc + 8)) (hp : inPage W.mmapRes a = false)
+    (hslot : ¬ (t0.regs Rsp - 8 ≤ a ∧ a < t0.regs Rsp - 8 + 8)) :
+    (entryT W pc fnAddr args t0).mem a = t0.mem a := by
+  have hrsp : (((prepare t0.regs args).set Rax fnAddr).set Rip W.mmapRes) Rsp = t0.regs Rsp := by
+    have := C16_args_touch_only_sysv_registers t0.regs args Rsp (by decide)
+    simp [RegFile.set, Rsp, Rax, Rip] at *; exact this
+  have hpg : ¬ (W.mmapRes ≤ a ∧ a < W.mmapRes + 8) := by
+    intro ⟨h1, h2⟩
+    have hp' := hp
+    unfold inPage PAGE_SIZE at hp'
+    simp at hp'
+    have := hp' h1
+    omega
+  simp only [entryT, atEntry, preCall, postJump, preJump, postMmap, preMmap, ccxOf, hrsp]
+  rw [poke_other _ _ _ _ hslot, poke_other _ _ _ _ hpg, poke_other _ _ _ _ hw]
+  simp only [hp]
+  exact poke_other _ _ _ _ hw
+
+/-- THE PROPERTY for code and data: a byte that the callee does not write, outside the 8 bytes right below the stack
+pointer, is after the call what it was before — in particular every byte of code -/
+theorem C16_text_restored (W : World) (d : Dbg) (pc fnAddr : Nat) (args : List Nat)
+    (hs : GoodStop W d pc) (hc : CalleeFrame W) (a : Nat)
+    (hcallee : ∀ t, (W.callee t).mem a = t.mem a)
+    (hslot : ¬ (d.t.regs Rsp - 8 ≤ a ∧ a < d.t.regs Rsp - 8 + 8)) :
+    (callFnRaw W pc fnAddr args d).2.t.mem a = d.t.mem a := by
+  obtain ⟨_, _, _, _, _, m1, m2, m3⟩ := C16_state_restored W d pc fnAddr args hs hc
+  by_cases hw : pc ≤ a ∧ a < pc + 8
+  · exact m1 a hw
+  · by_cases hp : inPage W.mmapRes a = true
+    · exact m2 a hp
+    · have hp' : inPage W.mmapRes a = false := by simpa using hp
+      rw [m3 a hw hp', hcallee]
+      exact C16_memory_at_entry W pc fnAddr args d.t a hw hp' hslot
+
+/-! ### witnesses -/
+/-- a stopped thread: rip = 100, rsp = 1000, all memory zero -/
+def wRegs : RegFile := fun i => if i = Rip then 100 else if i = Rsp then 1000 else 0
+def wDbg : Dbg := { t := { regs := wRegs, mem := fun _ => 0 } }
+
+theorem wGood : GoodStop (noFaults 8192 id) wDbg 100 :=
+  ⟨fun _ _ => rfl, fun _ => by simp [wDbg], rfl, by decide, fun _ _ => rfl⟩
+theorem wFrame : CalleeFrame (noFaults 8192 id) := ⟨fun _ => rfl, fun _ => rfl, fun _ => rfl⟩
+
+/-- non-vacuity of `C16_called_once_with_args` / `C16_state_restored`: the hypotheses are satisfiable, the run is the full one -/
+example : (callFnRaw (noFaults 8192 id) 100 500 [7, 9] wDbg).2.t.entered.length = 1 := by
+  obtain ⟨_, r, h, _⟩ := C16_called_once_with_args _ _ 100 500 [7, 9] wGood wFrame (by decide)
+  rw [h]; rfl
+
+/-- the full statement about memory: a call of a function that writes NOTHING leaves every byte as it was -/
+def C16_stack_untouched_full : Prop :=
+  ∀ (W : World) (d : Dbg) (pc fnAddr : Nat) (args : List Nat), GoodStop W d pc → CalleeFrame W →
+    (∀ t, (W.callee t).mem = t.mem) → ∀ a, (callFnRaw W pc fnAddr args d).2.t.mem a = d.t.mem a
+
+/-- FALSE of the code: the trampoline's `call` pushes its return address at rsp-8 — inside the red zone a leaf function
+may keep live data in (and the callee's frame grows below it): byte 992 = rsp-8 holds 0x02 (low byte of page+2) afterwards -/
+theorem C16_stack_untouched_counterexample : ¬ C16_stack_untouched_full := by
+  intro h
+  have h1 := h (noFaults 8192 id) wDbg 100 500 [] wGood wFrame (fun _ => rfl) 992
+  obtain ⟨_, _, _, _, _, _, _, m3⟩ := C16_state_restored (noFaults 8192 id) wDbg 100 500 [] wGood wFrame
+  rw [m3 992 (by omega) (by decide)] at h1
+  revert h1
+  decide
+
+/-- the failure-point clause for the address space: from EVERY failure point, if the debugger does not panic, the set of
+injected pages is what it was -/
+def C16_no_leak_full : Prop :=
+  ∀ (W : World) (d : Dbg) (pc fnAddr : Nat) (args : List Nat),
+    Bytes d.t.mem → d.t.regs Rip = pc → W.mmapRes < W64 - 4095 → CalleeFrame W →
+    (callFnRaw W pc fnAddr args d).1 ≠ .panic → (callFnRaw W pc fnAddr args d).2.t.pages = d.t.pages
+
+/-- it holds when no request fails … -/
+theorem C16_no_leak_partial (W : World) (d : Dbg) (pc fnAddr : Nat) (args : List Nat)
+    (hs : GoodStop W d pc) (hc : CalleeFrame W) : (callFnRaw W pc fnAddr args d).2.t.pages = d.t.pages :=
+  (C16_state_restored W d pc fnAddr args hs hc).2.2.1
+
+/-- … and is FALSE of the code when the GETREGS after the mmap step fails: the call reports an error, registers and
+code are restored (`C16_restore_from_any_failure`), the page stays mapped -/
+def leakWorld : World := ⟨fun k i => k == .getregs && i == 1, 8192, id⟩
+theorem C16_no_leak_counterexample : ¬ C16_no_leak_full := by
+  intro h
+  have := h leakWorld wDbg 100 500 [] (fun _ => by simp [wDbg]) rfl (by decide) ⟨fun _ => rfl, fun _ => rfl, fun _ => rfl⟩
+  revert this
+  decide
+
+/-- breakpoints around the call: from every failure point, if `call` does not panic, every breakpoint that was enabled is
+enabled again -/
+def C16_breakpoints_reenabled_full : Prop :=
+  ∀ (W : World) (d : Dbg) (pc : Nat) (order : List Addr) (lits : List Lit),
+    (callCmd W none lits pc order order d).1 ≠ .panic →
+    (callCmd W none lits pc order order d).2.bps.all (·.enabled) = true
+
+/-- FALSE of the code: the POKE of the second `disable` fails, `with_disabled_brkpts` returns early and the first
+breakpoint stays disabled -/
+def bpWorld : World := ⟨fun k i => k == .poke && i == 1, 8192, id⟩
+def bpDbg : Dbg := { t := { regs := wRegs, mem := fun a => if a = 100 ∨ a = 200 then 0xCC else 0 },
+                     bps := [{ addr := 100, saved := 0x55 }, { addr := 200, saved := 0x48 }] }
+theorem C16_breakpoints_reenabled_counterexample : ¬ C16_breakpoints_reenabled_full := by
+  intro h
+  have := h bpWorld bpDbg 100 [100, 200] [] (by decide)
+  revert this
+  decide
 
 end BsVerif.Call
